@@ -712,6 +712,12 @@ def _targets():
     add('BasicNominator', lambda: vcand.BasicNominator(), _c_nominate)
     add('PartyNominator', lambda: vcand.PartyNominator(), _c_nominate)
     add('PersonNominator', lambda: vcand.PersonNominator(), _c_nominate)
+    # --- dispatch family: asking wrapper O around a pass-through wrapper W around leaves with different signatures
+    for oname, wname, lname in DISPATCH_TARGETS:
+        add(f'dispatch:{oname}:{wname}:{lname}',
+            (lambda o=oname, w=wname, l=lname: _mk_dispatch(o, w, l)),
+            (c_dispatch_const if oname == 'ByConstituency' else c_dispatch_flat),
+            model='dispatch', ev=_dispatch_ev(wname, lname))
     # --- module-level singletons (shared object = the module's; fresh = a new instance of the same configuration)
     for key, obj in vcond.EVALUATORS.items():
         pristine = copy.deepcopy(obj)       # taken before any call of this process reaches the singleton
@@ -733,6 +739,59 @@ def _targets():
     add('singleton:TidemanAlternative.default_set_selector', lambda: vcond.SmithSet(), c_eval_condorcet,
         shared=lambda: inspect.signature(vseq.TidemanAlternative.__init__).parameters['set_selector'].default, singleton=True)
     return Tt
+
+
+# leaves by the keywords their `evaluate` names (0 = prev_gains, 1 = max_seats); class ids are positions in DISPATCH_CLASSES
+DISPATCH_LEAVES = {'Plurality': [], 'QuotaSelector': [], 'HighestAverages': [0, 1], 'LargestRemainder': [0, 1],
+                   'VotesPerSeat': [0, 1]}
+DISPATCH_WRAPPERS = ['TieBreaking', 'PostConverted', 'PreConverted', 'FixedSeatCount', 'none']
+DISPATCH_OUTER = ['ByConstituency', 'Conditioned']
+DISPATCH_CLASSES = list(DISPATCH_LEAVES) + DISPATCH_WRAPPERS
+DISPATCH_TARGETS = [(o, w, l) for o in DISPATCH_OUTER for w in DISPATCH_WRAPPERS for l in DISPATCH_LEAVES
+                    if not (l == 'VotesPerSeat' and w == 'FixedSeatCount')]
+
+
+def _dispatch_ev(wname, lname):
+    leaf = {'cls': DISPATCH_CLASSES.index(lname), 'takes': DISPATCH_LEAVES[lname]}
+    return leaf if wname == 'none' else {'cls': DISPATCH_CLASSES.index(wname), 'inner': leaf}
+
+
+def _mk_dispatch(oname, wname, lname):
+    import votelib.convert as vconv
+    import votelib.evaluate.core as vcore
+    import votelib.evaluate.proportional as vprop
+    import votelib.evaluate.approval as vapp
+    import votelib.evaluate.auxiliary as vaux
+    import votelib.evaluate.threshold as vthr
+    leaf = {'Plurality': vcore.Plurality, 'QuotaSelector': lambda: vapp.QuotaSelector('hare', on_more_over_quota='select'),
+            'HighestAverages': vprop.HighestAverages, 'LargestRemainder': lambda: vprop.LargestRemainder('hare'),
+            'VotesPerSeat': lambda: vprop.VotesPerSeat(3)}[lname]()
+    inner = {'TieBreaking': lambda: vcore.TieBreaking(leaf, vaux.InputOrderSelector()),
+             'PostConverted': lambda: vcore.PostConverted(leaf, vconv.Chain([])),
+             'PreConverted': lambda: vcore.PreConverted(vconv.Chain([]), leaf),
+             'FixedSeatCount': lambda: vcore.FixedSeatCount(leaf, 2),
+             'none': lambda: leaf}[wname]()
+    if oname == 'ByConstituency':
+        return vcore.ByConstituency(inner)
+    return vcore.Conditioned(vthr.RelativeThreshold(Fraction(1, 20)), inner)
+
+
+def c_dispatch_const(rng):
+    cs = g_cands(rng, 2, 4)
+    v = g_const(rng, lambda r: g_simple(r, cs, frac=False))
+    ds = [d for d, _ in v['D']]
+    k = {'prev_gains': D([(d, D([(c, rng.randint(1, 2)) for c in rng.sample(cs, rng.randint(1, len(cs)))])) for d in ds])}
+    if rng.random() < 0.4:
+        k['max_seats'] = D([(d, D([(c, rng.randint(1, 3)) for c in cs])) for d in ds])
+    return call('evaluate', v, rng.randint(1, 4), **k)
+
+
+def c_dispatch_flat(rng):
+    cs = g_cands(rng, 2, 4)
+    k = {'prev_gains': D([(c, rng.randint(1, 2)) for c in rng.sample(cs, rng.randint(1, len(cs)))])}
+    if rng.random() < 0.4:
+        k['max_seats'] = D([(c, rng.randint(1, 3)) for c in cs])
+    return call('evaluate', g_simple(rng, cs, frac=False), rng.randint(1, 4), **k)
 
 
 def accepts_n(obj):
@@ -1032,6 +1091,9 @@ def _model_state(t, obj):
         store = obj.rank_vote_count_checkers if t['model'] == 'rankval' else obj.sum_checkers
         return [[k, [None if c.min_value is None else num_str(c.min_value), None if c.max_value is None else num_str(c.max_value)]]
                 for k, c in store.items()]
+    if t.get('model') == 'dispatch':
+        import votelib.evaluate.core as vcore
+        return [bool(vcore.accepts_prev_gains(obj.evaluator)), bool(vcore.accepts_max_seats(obj.evaluator))]
     return None
 
 
@@ -1221,9 +1283,29 @@ def impl(case):
         raise ValueError(case['op'])
     # every library call inside runs under its own 3 s alarm (`outcome`): common.call_with_timeout does not nest (the inner
     # alarm(0) cancels the outer alarm), so there is no outer watchdog here
-    obs = run_isolated(case) if (_ISOLATE or os.environ.get('VERIF_C18_ISOLATE')) else run_history(case)
+    if case.get('foreign') is not None:
+        # 'foreign object first': the whole history runs in a fresh interpreter (so the foreign objects really are the
+        # first of their classes the process sees), and the reference for the other objects' calls comes from ANOTHER
+        # fresh interpreter that never sees the foreign objects — module-level state persists in-process, so neither a
+        # fresh instance nor a reference computed earlier or later in the same process is a reference
+        obs = run_isolated(case)
+        sub, idx = without_foreign(case)
+        ref = run_isolated(sub)['fresh'] if sub['calls'] else []
+        obs['ref'] = [ref[idx[i]] if i in idx else None for i in range(len(case['calls']))]
+    else:
+        obs = run_isolated(case) if (_ISOLATE or os.environ.get('VERIF_C18_ISOLATE')) else run_history(case)
     case['_rng'] = obs.get('rng')       # harness-only: the observed reseed / draw events, read by `model_line`
     return obs
+
+
+def without_foreign(case):
+    """the history without the calls on the foreign objects; index map call -> call of the reduced history"""
+    keep = [i for i, c in enumerate(case['calls']) if c['t'] not in case['foreign']]
+    used = sorted(set(case['calls'][i]['t'] for i in keep))
+    remap = {t: j for j, t in enumerate(used)}
+    sub = {'op': 'history', 'targets': [case['targets'][t] for t in used],
+           'calls': [dict(case['calls'][i], t=remap[case['calls'][i]['t']]) for i in keep]}
+    return sub, {i: j for j, i in enumerate(keep)}
 
 
 def oracle(case, obs):
@@ -1246,6 +1328,21 @@ def oracle(case, obs):
                         f"call {i} on {t['name']} (seed {t['seed']}): {json.dumps(obs['fresh'][i])[:120]} then "
                         f"{json.dumps(obs['repeat'][i])[:120]}"))
             break
+    if obs.get('ref'):
+        for i, c in enumerate(case['calls']):
+            r = obs['ref'][i]
+            t = T[case['targets'][c['t']]]
+            if r is None or t.get('random'):
+                continue
+            for run in ('shared', 'fresh'):
+                if obs[run][i] != r:
+                    out.append((f"depends_on_other_object:{t['name']}",
+                                f"call {i} on {t['name']} ({run} instance) after calls on {[case['targets'][f] for f in case['foreign']]}: "
+                                f"{json.dumps(obs[run][i])[:160]} but {json.dumps(r)[:160]} in an interpreter that never saw them"))
+                    break
+            else:
+                continue
+            break
     if obs['mutated']:
         m = obs['mutated'][0]
         out.append((f"argument_mutated:{m['target']}", f"call {m['call']} ({m['run']} {m['target']}): arguments "
@@ -1264,7 +1361,8 @@ REQUIRED_COUNTERS = ['every_class', 'singleton', 'pav_cache_grows', 'pav_small_a
                      'model:pav', 'model:borda', 'model:rng', 'model:rankval', 'model:scoreval', 'checker_materialised',
                      'rng_directed', 'draw:Hare._subtract', 'draw:Hare._distribute_equal_ranking', 'draw:Sortitor.evaluate',
                      'draw:RandomUnrankedBallotSelector.evaluate', 'draw_via:initial_allocation', 'draw_via:direct_transfer',
-                     'draw_via:next_count']
+                     'draw_via:next_count', 'foreign_first', 'model:dispatch'] + ['foreign_first:' + w for w in
+                                                                                ('TieBreaking', 'PostConverted', 'PreConverted', 'FixedSeatCount')]
 
 
 def _mk(targets, calls, tags):
@@ -1379,6 +1477,9 @@ def generate(rng, tier):
             yield _mk([name], calls, _tag_calls(TG, [name], calls, ['model:rng']))
     # (5b) directed: every code path of a seeded component that draws, interleaved with other users of the global generator
     yield from _rng_directed(rng, TG, 6 if tier == 'quick' else 60)
+    # (5c) foreign object first: a differently configured object of the same class tree is evaluated BEFORE the object under
+    # test, in a fresh interpreter; reference = the object under test alone in another fresh interpreter
+    yield from _foreign_first(rng, TG, 24 if tier == 'quick' else 150)
     # (6) a class found by reflection that the table does not know: try it with no arguments on simple votes
     for qn in untabled_classes():
         yield _mk(['Plurality'], [dict(c_eval_simple_sel(rng), t=0)], ['untabled_class:' + qn])
@@ -1453,6 +1554,39 @@ def _rng_directed(rng, TG, reps):
                     calls.append(dict(pg(rng), t=ti))
                     calls.append(json.loads(json.dumps(c0)))
                 yield _mk(targets, calls, _tag_calls(TG, targets, calls, ['rng_directed', 'model:rng']))
+
+
+def _foreign_first(rng, TG, n):
+    combos = [(o, w) for o in DISPATCH_OUTER for w in DISPATCH_WRAPPERS if w != 'none']
+    for k in range(n):
+        o, w = combos[k % len(combos)]
+        leaves = [l for l in DISPATCH_LEAVES if (o, w, l) in DISPATCH_TARGETS]
+        la = rng.choice([l for l in leaves if DISPATCH_LEAVES[l]])            # under test: takes prev_gains / max_seats
+        lb = rng.choice([l for l in leaves if not DISPATCH_LEAVES[l]])        # foreign: same wrappers, a leaf that does not
+        if k % 4 == 3:
+            la, lb = lb, la
+        targets = [f'dispatch:{o}:{w}:{la}', f'dispatch:{o}:{w}:{lb}']
+        calls = [dict(TG[targets[1]]['gen'](rng), t=1), dict(TG[targets[0]]['gen'](rng), t=0)]
+        if rng.random() < 0.4:
+            calls += [dict(TG[targets[1]]['gen'](rng), t=1), dict(TG[targets[0]]['gen'](rng), t=0)]
+        case = _mk(targets, calls, _tag_calls(TG, targets, calls, ['foreign_first', 'foreign_first:' + w]))
+        case['foreign'] = [1]
+        yield case
+    # the same dimension for other class families: a differently configured object of the same class first
+    others = [('Conditioned', 'Conditioned:prevgain'), ('ByConstituency', 'ByConstituency:selector'),
+              ('FixedSeatCount', 'FixedSeatCount:dist'), ('PostConverted', 'PreConverted'),
+              ('TieBreaking', 'TieBreaking:sortitor'), ('PartyListEvaluator', 'PartyListEvaluator:open'),
+              ('RankedToPositionalVotes', 'RankedToPositionalVotes:dowdall'), ('STAR', 'STAR:rp'),
+              ('HighestAverages', 'HighestAverages:sl'), ('QuotaDistributor', 'QuotaDistributor:sub'),
+              ('RankedVoteValidator', 'RankedVoteValidator:perrank'), ('SubsettedVotes', 'SubsettedVotes:ranked')]
+    for k in range(max(4, n // 4)):
+        a, b = others[k % len(others)]
+        if rng.random() < 0.5:
+            a, b = b, a
+        calls = [dict(TG[b]['gen'](rng), t=1), dict(TG[a]['gen'](rng), t=0), dict(TG[a]['gen'](rng), t=0)]
+        case = _mk([a, b], calls, _tag_calls(TG, [a, b], calls, ['foreign_first']))
+        case['foreign'] = [1]
+        yield case
 
 
 def _exhaustive(TG):
@@ -1539,6 +1673,8 @@ def _machine(case):
     ts = [TG[n] for n in case['targets']]
     if len(ts) == 1 and ts[0].get('model'):
         return ts[0]['model']
+    if all(t.get('model') == 'dispatch' for t in ts):
+        return 'dispatch'
     if any(t.get('seed') is not None for t in ts):
         return 'rng'
     return 'none'
@@ -1573,6 +1709,8 @@ def model_line(case):
                        'explicit': [[k, [_bj(x) for x in b]] for k, b in cfg['explicit']], 'post': post}
         # the vote is a frozenset of (candidate, score) pairs: identical pairs collapse
         line['calls'] = [sorted([_cid(c), num_str(sc)] for c, sc in decode(c['a'][0])) for c in case['calls']]
+    elif m == 'dispatch':
+        line['calls'] = [TG[case['targets'][c['t']]]['ev'] for c in case['calls']]
     elif m == 'rng':
         # the blocks are the ones the implementation was OBSERVED to make (shared run): each `random.seed` of the call
         # opens a block, each draw is a request (numbered by its draw site); draws before the first reseed of a call
@@ -1669,6 +1807,11 @@ def _compare(case, iobs, mobs):
                 return where + (f'output of the seeded component on the shared generator {json.dumps(io)[:120]} is not the '
                                 f'function of (seed, request) the model says it is ({json.dumps(iobs["fresh"][i])[:120]})')
             continue
+        if m == 'dispatch':
+            if iobs['mstate'][i] != mo:
+                return where + (f"accepts_prev_gains / accepts_max_seats of the evaluator inside {case['targets'][c['t']]}: "
+                                f"impl={iobs['mstate'][i]} model={mo}")
+            continue
         st_i, st_m = iobs['mstate'][i], mobs['states'][i]
         if m == 'pav':
             if st_i['coefs'] != st_m:
@@ -1737,8 +1880,11 @@ def shrink_candidates(case):
             cs = calls[:i] + calls[i + 1:]
             used = sorted(set(c['t'] for c in cs))
             remap = {t: j for j, t in enumerate(used)}
-            yield dict(case, targets=[case['targets'][t] for t in used],
-                       calls=[dict(c, t=remap[c['t']]) for c in cs])
+            cand = dict(case, targets=[case['targets'][t] for t in used],
+                        calls=[dict(c, t=remap[c['t']]) for c in cs])
+            if case.get('foreign') is not None:
+                cand['foreign'] = [remap[f] for f in case['foreign'] if f in remap]
+            yield cand
     # drop a ballot / dict entry of the first argument, a keyword argument
     for i, c in enumerate(calls):
         for k in list(c.get('k', {})):
@@ -1759,6 +1905,8 @@ REQUIRED = ['history_independent_pav', 'pav_output_is_spec', 'pav_cache_invarian
             'history_independent_seeded', 'seeded_draws_function_of_seed', 'seeded_draws_explicit',
             'history_dependent_unseeded_witness',
             'history_independent_rankval', 'history_independent_scoreval', 'rankval_store_invariant',
+            'history_independent_dispatch', 'dispatch_leaves_cache_empty', 'history_dependent_dispatch_cached_witness',
+            'dispatch_cached_sound_if_class_determines',
             'history_dependent_counting_factory_witness']
 UNPROVED = []
 NOT_VERIFIED = [
